@@ -3,6 +3,7 @@
 // A test is {init, steps:[{a, r, exp}]}; actions (specs/Prune/Prune.tla):
 //   ["connect", n, c]   n blocks of size class c (exact serialized size) on the tip
 //   ["reorg", d, c]     a fork of d + 1 blocks from height tip - d
+//   ["swap", c]         the headers of the next two blocks, then the body of the second, then the body of the first (stored out of height order)
 //   ["manual", h]       PruneBlockFilesManual(h)
 //   ["auto"]            Chainstate::PruneAndFlush()
 //   ["lock", name, h]   BlockManager::UpdatePruneLock(name, {h});   ["unlock", name]  DeletePruneLock(name)
@@ -181,6 +182,20 @@ struct World {
         R().Info(Obj({{"kind", "trace"}, {"test", (uint64_t)R().cur_test}, {"step", (uint64_t)R().cur_step}, {"action", R().cur_action}, {"obs", o}}));
         R().Count("observations"); if (!pruned.empty()) R().Count("prune_events"); R().Count("files_pruned", pruned.size());
     }
+    // the file infos next to the heights of the blocks stored in each file (judged: every file info covers its blocks)
+    void ObserveFiles()
+    {
+        const auto files = Files(/*with_disk=*/false);
+        const auto heights = HeightsByFile();
+        int tip; int64_t usage;
+        { LOCK(cs_main); tip = sim->cm().ActiveChain().Height(); usage = bm().CalculateCurrentUsage(); }
+        UniValue hs(UniValue::VARR);
+        for (size_t f = 0; f < files.size(); ++f) { UniValue a(UniValue::VARR); auto it = heights.find(f); if (it != heights.end()) for (int h : it->second) a.push_back(h); hs.push_back(a); }
+        UniValue o = Obj({{"kind", "files"}, {"explicit", false}, {"tip", tip}, {"locks", UniValue(UniValue::VARR)}, {"req", 0}, {"pruned", UniValue(UniValue::VARR)}, {"heights", hs},
+                          {"after", FilesJson(files)}, {"usage0", usage}, {"usage1", usage}, {"target", (int64_t)2000000000}});
+        R().Info(Obj({{"kind", "trace"}, {"test", (uint64_t)R().cur_test}, {"step", (uint64_t)R().cur_step}, {"action", R().cur_action}, {"obs", o}}));
+        R().Count("file_info_observations");
+    }
     struct Snap { std::vector<FileInfo> files; int64_t usage; std::map<std::string, int> locks; std::map<int, std::vector<int>> heights; std::set<int> lost; };
     Snap Snapshot()
     {
@@ -231,6 +246,17 @@ struct World {
                 prev = b->GetHash();
             }
             if (sim->Tip()->GetBlockHash() != prev) throw std::runtime_error("the fork did not become the active chain");
+        } else if (op == "swap") {
+            const std::string cls = a[1].get_str();
+            Snap snap = Snapshot();
+            CBlockIndex* tip = sim->Tip();
+            auto b1 = Build(tip->GetBlockHash(), tip->nHeight + 1, tip->GetBlockTime() + 1, cls);
+            auto b2 = Build(b1->GetHash(), tip->nHeight + 2, tip->GetBlockTime() + 2, cls);
+            for (const auto& b : {b1, b2}) { BlockValidationState st; if (!sim->SubmitHeader(static_cast<const CBlockHeader&>(*b), st)) throw std::runtime_error("header rejected: " + st.ToString()); }
+            SubmitObserved(b2, tip->nHeight + 2, snap);
+            if (sim->Tip() != tip) throw std::runtime_error("the second block was connected before the first was delivered");
+            SubmitObserved(b1, tip->nHeight + 1, snap);
+            if (sim->Tip()->GetBlockHash() != b2->GetHash()) throw std::runtime_error("the swapped pair was not connected: " + sim->Reason(b2->GetHash()));
         } else if (op == "manual" || op == "auto") {
             const Snap snap = Snapshot();
             const int req = op == "manual" ? a[1].getInt<int>() : 0;
@@ -242,6 +268,7 @@ struct World {
         } else if (op == "unlock") {
             LOCK(cs_main); bm().DeletePruneLock(a[1].get_str());
         } else throw std::runtime_error("unknown op " + op);
+        if (op == "connect" || op == "reorg" || op == "swap") ObserveFiles();
         return res;
     }
 
